@@ -37,8 +37,15 @@ def install(interp):
     interp.ambient = []
 
 
-def none():
-    return ('e', OPTION, {0: ()})
+def none(org=None):
+    return ('e', OPTION, {0: (('org', org),) if org else ()})
+
+
+def none_org(v):
+    """origin tag of a None produced by a checked operation (hidden pseudo-field)"""
+    if v is not None and v[0] == 'e' and v[1] == OPTION and 0 in v[2] and v[2][0] and v[2][0][0][0] == 'org':
+        return v[2][0][0][1]
+    return None
 
 
 def some(v):
@@ -126,6 +133,8 @@ def m_panic(I, st, args, dty, site):
     if cause is None and I.ambient:
         cause = I.ambient[-1]
     I.record(o, False, st, 'explicit panic reachable', cause=cause or 'unattributed')
+    for h in I.panic_hooks:
+        h(I, st, site, cause or 'unattributed')
     return []
 
 
@@ -142,8 +151,11 @@ def _unwrap(I, st, args, dty, site, okv, what):
             for f in v[2][k]:
                 cause = cause_of(origin_of(I, st, f))
         if cause is None:
-            cause = site.get('src_hint') or ('None' if v[1] == OPTION else 'Err')
+            cause = none_org(v) or ('None' if v[1] == OPTION else 'Err')
         I.record(o, False, st, f'{what}: failing variant reachable', cause=cause)
+        if okv not in v[2]:
+            for h in I.panic_hooks:
+                h(I, st, site, cause)
     else:
         I.record(o, True, st)
     if okv in v[2]:
@@ -284,8 +296,7 @@ def m_ok_or_else(I, st, args, dty, site):
     if 1 in v[2]:
         outs.append((st.clone(), ok(v[2][1][0])))
     if 0 in v[2]:
-        hint = site.get('none_cause')
-        I.ambient.append(hint)
+        I.ambient.append(none_org(v))
         try:
             r = I.call_closure(st, clo, [], site)
         finally:
@@ -404,22 +415,30 @@ def m_is_positive(I, st, args, dty, site):
     return [(st, I.binop(st, 'Gt', a, const_int(0, a[2]), {'k': 'bool'}, None, None))]
 
 
+def _abs_split(I, st, a, tn, tmax=None):
+    """|a| by case split on the sign, so that each branch is an exact affine function of a"""
+    lo, hi = D.get_iv(st, a[1])
+    outs = []
+    if hi >= 0:
+        s1 = st.clone()
+        if D.set_iv(s1, a[1], max(lo, 0), hi):
+            outs.append((s1, ('i', a[1], tn)))
+    if lo < 0:
+        s2 = st.clone()
+        if D.set_iv(s2, a[1], lo, min(hi, -1)):
+            l2, h2 = D.get_iv(s2, a[1])
+            top_ = -l2 if tmax is None else min(-l2, tmax)
+            v = D.term_vid(s2, ('Neg', a[1]), -h2, top_, D.aff_scale(D.aff_of(a[1]), -1))
+            outs.append((s2, ('i', v, tn)))
+    return outs
+
+
 @model_if(lambda n: n.startswith('core::num::<impl ') and n.endswith('::unsigned_abs'))
 def m_unsigned_abs(I, st, args, dty, site):
     a = args[0]
     if not _intarg(a):
         return None
-    lo, hi = D.get_iv(st, a[1])
-    tn = tyname(dty)
-    if lo >= 0:
-        return [(st, ('i', a[1], tn))]
-    c = [abs(lo), abs(hi)]
-    aff = D.aff_scale(D.aff_of(a[1]), -1) if hi <= 0 else None
-    if hi <= 0:
-        v = D.term_vid(st, ('Neg', a[1]), -hi, -lo, aff)
-    else:
-        v = D.term_vid(st, ('abs', a[1]), 0, max(c))
-    return [(st, ('i', v, tn))]
+    return _abs_split(I, st, a, tyname(dty))
 
 
 @model_if(lambda n: n.startswith('core::num::<impl ') and n.endswith('::abs'))
@@ -431,13 +450,7 @@ def m_abs(I, st, args, dty, site):
     tr = range_of_name(a[2])
     o = site_obl(I, site, 'STDPRE')
     I.record(o, lo > tr[0], st, f'abs of a value that may be {a[2]}::MIN' if lo <= tr[0] else None, cause='abs overflow')
-    if lo >= 0:
-        return [(st, a)]
-    if hi <= 0:
-        v = D.term_vid(st, ('Neg', a[1]), -hi, min(-lo, tr[1]), D.aff_scale(D.aff_of(a[1]), -1))
-    else:
-        v = D.term_vid(st, ('abs', a[1]), 0, min(max(abs(lo), abs(hi)), tr[1]))
-    return [(st, ('i', v, a[2]))]
+    return _abs_split(I, st, a, a[2], tr[1])
 
 
 @model_if(lambda n: n.startswith('core::num::<impl ') and n.endswith('::rem_euclid'))
@@ -477,9 +490,7 @@ def m_checked(I, st, args, dty, site):
         tup = I.binop(s2, op + 'WithOverflow', a, b, {'k': 'tuple', 'elems': [ty_of_name(tn), {'k': 'bool'}]}, None, None)
         outs.append((s2, some(tup[1][0])))
     if r[0] < tr[0] or r[1] > tr[1]:
-        outs.append((st.clone(), none()))
-    for s, v in outs:
-        pass
+        outs.append((st.clone(), none('int::checked_' + op.lower())))
     return outs
 
 
@@ -667,14 +678,15 @@ def m_try_into(I, st, args, dty, site):
             s1 = st.clone()
             if D.set_iv(s1, a[1], tr[0], tr[1]):
                 outs.append((s1, ok(('i', a[1], tn))))
+        tfe = ('s', 'std::num::TryFromIntError', (), ('int::try_from',))
         if lo < tr[0]:
             s2 = st.clone()
             if D.set_iv(s2, a[1], lo, tr[0] - 1):
-                outs.append((s2, err(('top', dty['args'][1]))))
+                outs.append((s2, err(tfe)))
         if hi > tr[1]:
             s3 = st.clone()
             if D.set_iv(s3, a[1], tr[1] + 1, hi):
-                outs.append((s3, err(('top', dty['args'][1]))))
+                outs.append((s3, err(tfe)))
         return outs
     # slice -> array
     if a is not None and a[0] == 'slice' and tgt.get('k') == 'array' and tgt.get('len') is not None:
@@ -1521,3 +1533,157 @@ def m_coll_clone(I, st, args, dty, site):
     oid = next(I._oid)
     st.objs[oid] = o
     return [(st, ('obj', oid, h[2]))]
+
+
+# ---------------------------------------------------------------- more Option / Result combinators
+
+@model_if(lambda n: n.startswith('std::convert::num::<impl std::convert::TryFrom<') and n.endswith('>::try_from'))
+def m_num_try_from(I, st, args, dty, site):
+    return m_try_into(I, st, args, dty, site)
+
+
+@model('std::result::Result::<T, E>::ok')
+def m_res_ok(I, st, args, dty, site):
+    v = args[0]
+    if v[0] != 'e':
+        return None
+    vs = {}
+    if 0 in v[2]:
+        vs[1] = v[2][0]
+    if 1 in v[2]:
+        c = cause_of(origin_of(I, st, v[2][1][0])) if v[2][1] else None
+        vs[0] = (('org', c),) if c else ()
+    return [(st, ('e', OPTION, vs))]
+
+
+@model('std::result::Result::<T, E>::err')
+def m_res_err(I, st, args, dty, site):
+    v = args[0]
+    if v[0] != 'e':
+        return None
+    vs = {}
+    if 1 in v[2]:
+        vs[1] = v[2][1]
+    if 0 in v[2]:
+        vs[0] = ()
+    return [(st, ('e', OPTION, vs))]
+
+
+@model('std::option::Option::<T>::ok_or')
+def m_ok_or(I, st, args, dty, site):
+    v = args[0]
+    if v[0] != 'e':
+        return None
+    vs = {}
+    if 1 in v[2]:
+        vs[0] = v[2][1]
+    if 0 in v[2]:
+        vs[1] = (args[1],)
+    return [(st, ('e', RESULT, vs))]
+
+
+def _closure_each(I, st, clo, payload, site, wrap):
+    r = I.call_closure(st, clo, [payload] if payload is not None else [], site)
+    if r is None:
+        return None
+    return [(s2, wrap(v2)) for s2, v2 in r]
+
+
+@model('std::option::Option::<T>::and_then', 'std::result::Result::<T, E>::and_then')
+def m_and_then(I, st, args, dty, site):
+    v, clo = args[0], args[1]
+    if v[0] != 'e':
+        return None
+    okv = 1 if v[1] == OPTION else 0
+    outs = []
+    if okv in v[2]:
+        r = _closure_each(I, st, clo, v[2][okv][0], site, lambda x: x)
+        if r is None:
+            s2 = st.clone()
+            outs.append((s2, I.top(s2, dty, 'and_then')))
+        else:
+            outs.extend(r)
+    if (1 - okv) in v[2]:
+        outs.append((st.clone(), ('e', v[1], {1 - okv: v[2][1 - okv]})))
+    return outs
+
+
+@model('std::option::Option::<T>::map', 'std::result::Result::<T, E>::map')
+def m_map(I, st, args, dty, site):
+    v, clo = args[0], args[1]
+    if v[0] != 'e':
+        return None
+    okv = 1 if v[1] == OPTION else 0
+    outs = []
+    if okv in v[2]:
+        r = _closure_each(I, st, clo, v[2][okv][0], site, lambda x: ('e', v[1], {okv: (x,)}))
+        if r is None:
+            s2 = st.clone()
+            outs.append((s2, I.top(s2, dty, 'map')))
+        else:
+            outs.extend(r)
+    if (1 - okv) in v[2]:
+        outs.append((st.clone(), ('e', v[1], {1 - okv: v[2][1 - okv]})))
+    return outs
+
+
+@model('std::option::Option::<T>::unwrap_or_else')
+def m_opt_unwrap_or_else(I, st, args, dty, site):
+    v, clo = args[0], args[1]
+    if v[0] != 'e':
+        return None
+    outs = []
+    if 1 in v[2]:
+        outs.append((st.clone(), v[2][1][0]))
+    if 0 in v[2]:
+        I.ambient.append(none_org(v) or ('None@' + site['fn']))
+        try:
+            r = I.call_closure(st, clo, [], site)
+        finally:
+            I.ambient.pop()
+        if r is None:
+            s2 = st.clone()
+            outs.append((s2, I.top(s2, dty, 'uoe')))
+        else:
+            outs.extend(r)
+    return outs
+
+
+@model('std::option::Option::<T>::filter')
+def m_opt_filter(I, st, args, dty, site):
+    v, clo = args[0], args[1]
+    if v[0] != 'e':
+        return None
+    outs = [(st.clone(), none())]
+    if 1 in v[2]:
+        s2 = st.clone()
+        I.call_closure(s2, clo, [('r', I.alloc(s2, v[2][1][0]))], site)
+        outs.append((st.clone(), some(v[2][1][0])))
+    return outs
+
+
+@model('std::option::Option::<T>::as_ref', 'std::option::Option::<T>::as_mut', 'std::result::Result::<T, E>::as_ref')
+def m_as_ref(I, st, args, dty, site):
+    v = deref(I, st, args[0])
+    if v is None or v[0] != 'e':
+        return None
+    vs = {}
+    for vi, fs in v[2].items():
+        vs[vi] = tuple(('r', I.alloc(st, f)) for f in fs)
+    return [(st, ('e', v[1], vs))]
+
+
+@model('std::option::Option::<T>::copied', 'std::option::Option::<T>::cloned')
+def m_copied(I, st, args, dty, site):
+    v = args[0]
+    if v[0] != 'e':
+        return None
+    vs = {}
+    for vi, fs in v[2].items():
+        vs[vi] = tuple(deref(I, st, f) for f in fs)
+    return [(st, ('e', v[1], vs))]
+
+
+@model('<std::option::Option<T> as std::cmp::PartialEq>::eq')
+def m_opt_eq(I, st, args, dty, site):
+    return [(st, I.top(st, {'k': 'bool'}, 'eq'))]
